@@ -560,7 +560,11 @@ pub fn effect_violations(w: &World, scn: &Scn, res: &Res, before: &Snapshot, tra
     // the sweep of .kismet_temp: when the one call that failed is the unlink of one stale temporary file, the operation
     // that still reports success has reclaimed the other stale files of that directory as it would have without the fault
     if !res.is_err() && !res.is_panic() {
-        if let Some(f) = trace.iter().find(|e| e.injected && e.kind == shim::Kind::Unlink && e.path.as_deref().map(|p| p.contains("/.kismet_temp/")).unwrap_or(false)) {
+        // (every injected fault of this run is such an unlink: with two faults, both files are excused)
+        let injected: Vec<&shim::Ev> = trace.iter().filter(|e| e.injected).collect();
+        let all_temp_unlinks = !injected.is_empty() && injected.iter().all(|e| e.kind == shim::Kind::Unlink && e.path.as_deref().map(|p| p.contains("/.kismet_temp/")).unwrap_or(false));
+        let excused: Vec<String> = injected.iter().filter_map(|e| e.path.clone()).collect();
+        if let Some(f) = injected.first().filter(|_| all_temp_unlinks) {
             let failed = f.path.clone().unwrap_or_default();
             let dir = Path::new(&failed).parent().map(|p| p.to_path_buf()).unwrap_or_default();
             let now = shim::clock_peek_ns() as i128;
@@ -568,7 +572,7 @@ pub fn effect_violations(w: &World, scn: &Scn, res: &Res, before: &Snapshot, tra
                 let dir_rel = dir_rel.to_string_lossy().into_owned();
                 for (rel, n) in before {
                     let abs = w.sc.root.join(rel);
-                    if n.kind == 'f' && abs.parent() == Some(dir.as_path()) && rel.starts_with(&dir_rel) && abs.to_string_lossy() != failed && n.meta.mtime < now - 3700 * SEC && world::lstat(&abs).is_some() {
+                    if n.kind == 'f' && abs.parent() == Some(dir.as_path()) && rel.starts_with(&dir_rel) && !excused.iter().any(|x| *x == abs.to_string_lossy()) && n.meta.mtime < now - 3700 * SEC && world::lstat(&abs).is_some() {
                         bad.push((
                             "sweep-stopped-by-one-failure".into(),
                             format!("the unlink of {} failed; {} (stale as well) was left behind by an operation that reported success", failed.rsplit('/').next().unwrap_or(""), rel),
